@@ -12,26 +12,35 @@ runs = int(sys.argv[2]) if len(sys.argv) > 2 else 4800
 seed = sys.argv[3] if len(sys.argv) > 3 else "20260923"
 spec = PROPS[prop]
 target = os.path.join(ROOT, spec.get("target_dir", "target"))
-binary = os.path.join(target, "release", spec["bin"])
-results = []
-for jobs in (1, 3, 16, 16, 1):
-    chunk = (runs + jobs - 1) // jobs
-    tmp = tempfile.mkdtemp()
-    procs = []
-    for w in range(jobs):
-        start = w * chunk
-        count = max(0, min(chunk, runs - start))
-        out = os.path.join(tmp, f"{w}.json")
-        procs.append((subprocess.Popen([binary, "--prop", prop, "--seed", seed, "--start", str(start), "--count", str(count), "--out", out, "--log-all", "--replay-dir", tmp], stderr=subprocess.DEVNULL), out))
-    digest, n = 0, 0
-    for p, out in procs:
-        p.wait()
-        o = json.load(open(out))
-        digest = (digest + o["digest"]) & 0xFFFFFFFFFFFFFFFF
-        n += o["runs"]
-    subprocess.run(["rm", "-rf", tmp])
-    results.append((jobs, n, digest))
-    print(f"jobs={jobs:2d} runs={n} digest={digest:016x}")
-ok = len({(n, d) for _, n, d in results}) == 1
-print("DETERMINISTIC" if ok else "DIVERGENCE")
-sys.exit(0 if ok else 1)
+# every worker binary of the property (a property may be decided on several engines); argv[4] picks one
+bins = [spec["bin"]] + [p["bin"] for p in spec.get("more_parts", [])]
+if len(sys.argv) > 4:
+    bins = [sys.argv[4]]
+all_ok = True
+for bin_name in bins:
+  binary = os.path.join(target, "release", bin_name)
+  print(f"--- {bin_name}")
+  results = []
+  if True:
+    for jobs in (1, 3, 16, 16, 1):
+        chunk = (runs + jobs - 1) // jobs
+        tmp = tempfile.mkdtemp()
+        procs = []
+        for w in range(jobs):
+            start = w * chunk
+            count = max(0, min(chunk, runs - start))
+            out = os.path.join(tmp, f"{w}.json")
+            procs.append((subprocess.Popen([binary, "--prop", prop, "--seed", seed, "--start", str(start), "--count", str(count), "--out", out, "--log-all", "--replay-dir", tmp], stderr=subprocess.DEVNULL), out))
+        digest, n = 0, 0
+        for p, out in procs:
+            p.wait()
+            o = json.load(open(out))
+            digest = (digest + o["digest"]) & 0xFFFFFFFFFFFFFFFF
+            n += o["runs"]
+        subprocess.run(["rm", "-rf", tmp])
+        results.append((jobs, n, digest))
+        print(f"jobs={jobs:2d} runs={n} digest={digest:016x}")
+    ok = len({(n, d) for _, n, d in results}) == 1
+    print("DETERMINISTIC" if ok else "DIVERGENCE")
+    all_ok = all_ok and ok
+sys.exit(0 if all_ok else 1)
